@@ -195,9 +195,12 @@ def load_known(prop):
             if not line or line.startswith("#"):
                 continue
             if line.startswith("known:"):
-                kv = dict(re.findall(r"(\w+)=(\S+)", line))
+                head, _, text = line[len("known:"):].partition(" -- ")
+                kv = dict(re.findall(r"(property|kind)=(\S+)", head))
+                m = re.search(r"\bmatch=(.*)$", head.strip())
+                kv["match"] = m.group(1).strip() if m else ""
                 if kv.get("property") == prop:
-                    kv["text"] = line.split(" -- ", 1)[1] if " -- " in line else line
+                    kv["text"] = text or line
                     known.append(kv)
             elif line.startswith("fixed:"):
                 fixed.append(line)
@@ -222,7 +225,7 @@ def run_correspondence(harness, prop, tier, seed, outdir):
     if rc != 0:
         # the harness process itself died (abort / stack overflow): that is a C05-type event
         cur = os.path.join(outdir, "current_case.txt")
-        case = open(cur).read().strip() if os.path.exists(cur) else ""
+        case = open(cur, "rb").read().split(b"\0")[0].decode("utf-8", "replace").strip() if os.path.exists(cur) else ""
         hang = os.path.exists(os.path.join(outdir, "hang.txt"))
         return dict(died=True, log=out[-3000:], rc=rc, case=case, hang=hang)
     driver = os.path.join(LEAN, ".lake", "build", "bin", "jmdriver")
